@@ -62,6 +62,10 @@ pub struct Scenario {
     pub retire: RetireMode,
     pub with_scheduler: bool,
     pub sample_rate: u32,
+    /// compiler option `--self-init-0` (SelfEvalMode::ZeroAtInit); the C06 oracle is the same
+    /// system with the same options, the C07 voice models describe the default mode only
+    #[serde(default)]
+    pub self_init_0: bool,
 }
 
 #[derive(Clone, Debug, Serialize, Deserialize, PartialEq)]
@@ -401,6 +405,7 @@ pub fn run(sc: &Scenario) -> RunResult {
     let opts = SutOptions {
         with_scheduler: sc.with_scheduler,
         sample_rate: sc.sample_rate,
+        self_init_0: sc.self_init_0,
     };
     let is_c07 = sc.prop == "C07";
     let src0 = sc.versions[0].source();
@@ -854,6 +859,7 @@ pub fn gen_c07(seed: u64) -> Scenario {
         retire: *r_cfg.pick(&[RetireMode::Present, RetireMode::Present, RetireMode::Absent, RetireMode::ReceiverDropped]),
         with_scheduler: r_cfg.chance(1, 2),
         sample_rate: *r_cfg.pick(&[48000u32, 44100, 96000]),
+        self_init_0: false,
     }
 }
 
@@ -891,6 +897,7 @@ pub fn gen_c06(seed: u64) -> Scenario {
         retire: *r_cfg.pick(&[RetireMode::Present, RetireMode::Present, RetireMode::Absent, RetireMode::ReceiverDropped]),
         with_scheduler: r_cfg.chance(1, 2),
         sample_rate: *r_cfg.pick(&[48000u32, 44100, 96000]),
+        self_init_0: root.sub("compiler-options").chance(1, 5),
     }
 }
 
@@ -952,6 +959,7 @@ pub fn gen_c06_fixture(seed: u64) -> Option<Scenario> {
         retire: RetireMode::Present,
         with_scheduler: r_cfg.chance(1, 2),
         sample_rate: 48000,
+        self_init_0: root.sub("compiler-options").chance(1, 5),
     })
 }
 
@@ -1143,7 +1151,7 @@ pub fn selfcheck() -> (bool, Vec<String>) {
         for rep in 0..4u32 {
             let n_in = if rep % 2 == 0 { 0 } else { 2 };
             let mut v = gen_voice(&mut rng, 0, kind, n_in, 100);
-            v.wrap = rep / 2;
+            v.wrap = if matches!(kind, crate::voices::Kind::InMem | crate::voices::Kind::InDly) { 0 } else { rep / 2 };
             let prog = Prog {
                 sites: vec![v.clone()],
                 chans: if rep == 3 { vec![vec![0], vec![]] } else { vec![vec![0]] },
@@ -1165,6 +1173,7 @@ pub fn selfcheck() -> (bool, Vec<String>) {
                     retire: RetireMode::Present,
                     with_scheduler: rep % 2 == 1,
                     sample_rate: [48000, 44100, 96000, 48000][rep as usize % 4],
+                    self_init_0: false,
                 };
                 let r = run(&sc);
                 match r.outcome {
@@ -1236,6 +1245,7 @@ fn base_scenario(prop: &str, backend: Backend, versions: Vec<Version>, saves: Ve
         retire: RetireMode::Present,
         with_scheduler: false,
         sample_rate: 44100,
+        self_init_0: false,
     }
 }
 
